@@ -17,6 +17,7 @@ from ..sim import (ACT_CRASH, ACT_TORN, CLS_CODE, EV_OPEN, EV_SEEK, EV_WRITE)
 ID = "C03"
 LEVEL = "fault_enumeration"
 VARIANTS = ("asan",)
+EVAL_RUNS = True
 RULE = ("E1 every prefix, E2 bit flips (all bits of non-payload bytes, 1 [quick] / 3 [thorough] per payload byte), "
         "E3 field edits, E4 every write/seek crash point (+torn variants) of the asl code-file writer, of the "
         "reference code files x tool matrix; E5 golden sources cut at line boundaries; E6 byte mutations of golden "
@@ -282,6 +283,7 @@ class Acc:
         self.seen_cls = set()
         self.sample = None
         self.digests = []
+        self.shapes = set()
         self.obs = []
 
     def bump(self, d, k, n=1):
@@ -304,6 +306,7 @@ def sc_key(prog, sc):
 def run_one(sim, acc, prog, sc, origin, kind, nontrivial_off=None):
     r, san = sim.run(prog, sc, "asan")
     acc.runs += 1
+    acc.shapes.add(r.hash)
     fb = sc.get("disk", {}).get("/w/f.p")
     acc.keys.append((sc_key(prog, sc), 1 if (nontrivial_off is None or r.bytes_read >= min(nontrivial_off, len(fb or b""))) else 0))
     acc.sim_us += r.sim_us
@@ -628,7 +631,7 @@ def run_case(sim, case):
     else:
         return {"machinery_error": "unknown generator %r" % g}
     return {"violations": acc.violations, "runs": acc.runs, "sim_us": acc.sim_us, "stats": acc.stats,
-            "faults": acc.faults, "probes": acc.probes, "keys": acc.keys,
+            "faults": acc.faults, "probes": acc.probes, "keys": acc.keys, "shapes": sorted(acc.shapes),
             "sample": acc.sample, "digest": None, "observations": acc.obs, "distinct": acc.runs}
 
 
